@@ -327,7 +327,7 @@ def trace_const(variant):
                 MaxFields=0, MaxLen=0, Variant=variant, Emit=False)
 
 
-def validate(traces, variant, rows_per_run=2500, par=6):
+def validate(traces, variant, rows_per_run=1500, par=8):
     """CsvTrace.tla on batches.  Returns (verdicts, stats); verdicts[i] =
     ('ACCEPT', steps, insync) | ('REJECT', n, [(row, col, clause), ...])."""
     cfg = C.cfg(spec='TraceSpec', constants=trace_const(variant),
@@ -409,10 +409,10 @@ LETTERS = ['a', 'b', 'Z', '0', '7', '-', '.', 'e', "'", ',', ';', '|', '\t', ':'
            '\u00e9', '\u00df', '\u6f22', '\U0001f600', 'True', 'None']
 
 
-def rnd_str(rng, sep, esc, clean):
+def rnd_str(rng, sep, esc, clean, long=False):
     special = [sep, sep[0], sep[-1], '"', esc, ' ', '""', esc + '"', esc + esc, '"' + sep,
                sep + '"', esc + sep, sep + esc, ' ' + sep + ' ']
-    n = rng.choice([0, 0, 1, 1, 2, 3, rng.randint(0, 12)])
+    n = rng.randint(0, 80) if long else rng.choice([0, 0, 1, 1, 2, 3, rng.randint(0, 12)])
     s = ''.join(rng.choice(special if rng.random() < 0.5 else LETTERS) for _ in range(n))
     if rng.random() < 0.3:
         s = rng.choice(special) + s
@@ -458,7 +458,7 @@ def rnd_int(rng):
     return rng.randint(-2 ** 63, 2 ** 63 - 1)
 
 
-def rnd_rows(rng, sep, esc, clean, nrows, kinds=None):
+def rnd_rows(rng, sep, esc, clean, nrows, kinds=None, long=False):
     if kinds is None:
         kinds = ''.join(rng.choice('sssifb') for _ in range(rng.randint(1, 8)))
     rows = []
@@ -466,7 +466,7 @@ def rnd_rows(rng, sep, esc, clean, nrows, kinds=None):
         r = []
         for k in kinds:
             if k == 's':
-                r.append(rnd_str(rng, sep, esc, clean))
+                r.append(rnd_str(rng, sep, esc, clean, long))
             elif k == 'i':
                 r.append(rnd_int(rng))
             elif k == 'f':
@@ -475,6 +475,15 @@ def rnd_rows(rng, sep, esc, clean, nrows, kinds=None):
                 r.append(rng.random() < 0.5)
         rows.append(tuple(r))
     return kinds, rows
+
+
+def near(text, m, real, exp):
+    """the real result is the model's exact value up to the rounding of float(i) + r
+    (one ulp of the largest operand; the sum may cancel)"""
+    mm = re.match(r'-?[0-9]+', text)
+    big = max(abs(real), abs(exp), 1.0, float(abs(int(mm.group(0)))) if mm else 0.0)
+    exact = Fraction(-m['num'] if m['neg'] else m['num'], m['den'])
+    return abs(Fraction(real) - exact) <= Fraction(math.ulp(big))
 
 
 def nontrivial_key(tr, j):
@@ -592,7 +601,7 @@ def main(tier, replay):
 
     # 2. every enumerated row / numeral through the real code ---------------------------
     def key(b):
-        return C.json.dumps([b[1], b[2], b[3]], sort_keys=True)
+        return C.json.dumps(b[1:5])
     uniq = {}
     for b in model_rows:
         uniq.setdefault(key(b), b)
@@ -600,9 +609,9 @@ def main(tier, replay):
     n_enum = len(model_rows)
     groups = {}
     for b in model_rows:
-        _, sp, es, row, _line, _merged, _res = b
-        kinds = ''.join('s' if f['k'] == 's' else 'i' for f in row)
-        vals = tuple(dec(f['v']) if f['k'] == 's' else int(dec(f['v'])) for f in row)
+        _, sp, es, isstr, texts = b
+        kinds = ''.join('s' if q else 'i' for q in isstr)
+        vals = tuple(dec(t) if q else int(dec(t)) for q, t in zip(isstr, texts))
         groups.setdefault((dec(sp), chr(es), kinds), []).append(vals)
     traces = []
     for (sp, es, kinds), rows in sorted(groups.items()):
@@ -614,7 +623,7 @@ def main(tier, replay):
     # canonical ones (= what str() prints) as one-column rows
     import rxsci.container.csv as csv
     pd = getattr(csv, 'parse_decimal', None)
-    num_sync = {'sync': 0, 'one-ulp': 0, 'out': 0, 'not-compared': 0}
+    num_sync = {'sync': 0, 'rounding': 0, 'out': 0, 'not-compared': 0}
     num_out = []
     canon_f, canon_i = [], []
     import logging
@@ -649,9 +658,8 @@ def main(tier, replay):
                 exp = -exp
         if repr(real) == repr(exp):
             num_sync['sync'] += 1
-        elif isinstance(real, float) and isinstance(exp, float) and \
-                real in (math.nextafter(exp, math.inf), math.nextafter(exp, -math.inf)):
-            num_sync['one-ulp'] += 1
+        elif isinstance(real, float) and isinstance(exp, float) and near(text, m, real, exp):
+            num_sync['rounding'] += 1   # float(i) + r rounds twice (and cancels): not modelled
         else:
             num_sync['out'] += 1
             num_out.append((text, repr(real), repr(exp)))
@@ -679,12 +687,15 @@ def main(tier, replay):
         clean = n % 3 != 2          # every third file: any string (ends at the first known defect)
         kinds = ['sifbs', 'ssf', 'sis', 'fsbi'][n % 4]
         target = rng.choice([70000, 140000]) if n else 70000
-        rows, size = [], 0
-        while size < target:
-            _, rr = rnd_rows(rng, sep, esc, clean, 50, kinds)
+        rows = []
+        while True:      # grow until the real file is longer than the target
+            _, rr = rnd_rows(rng, sep, esc, clean, 100, kinds, long=True)
             rows += rr
-            size += sum(sum(len(str(v)) + 3 for v in r) for r in rr)
-        t = file_trace(kinds, rows, sep, esc)
+            if sum(sum(len(str(v)) + 3 for v in r) for r in rows) < target:
+                continue
+            t = file_trace(kinds, rows, sep, esc)
+            if t['file']['chars'] >= target:
+                break
         t['profile'] = 'no-trailing-escape' if clean else 'any'
         file_infos.append(dict(t['file'], sep=sep, esc=esc, schema=kinds, profile=t['profile']))
         traces.append(t)
